@@ -293,7 +293,46 @@ def _sort_by(e, c, a):
 # ---- HashMap / HashSet ----
 @model('HashMap::new', 'HashMap::with_capacity')
 def _map_new(e, c, a): return MapObj()
+def ckey(v):
+    """hashable canonical form of a fully concrete value (structural equality = python equality), None if any part is symbolic
+    or of a kind not handled here (the caller then falls back to eq_vals)"""
+    t = type(v)
+    while t is Ref: v = v.get(); t = type(v)
+    if t is int: return v
+    if t is Struct:
+        out = []
+        for x in v.f:
+            c = ckey(x)
+            if c is None: return None
+            out.append(c)
+        return ('S', tuple(out))
+    if t is bool: return ('b', v)
+    if t is str: return ('s', v)
+    if t is StrBuf: return ('s', v.s) if type(v.s) is str else None
+    if t is Enum:
+        out = []
+        for x in v.f:
+            c = ckey(x)
+            if c is None: return None
+            out.append(c)
+        return ('E', v.v, tuple(out))
+    return None
+
 def map_find(e, m, k):
+    kc = ckey(k)
+    if kc is not None:
+        # concrete key: entries with concrete keys are compared without building z3 terms (same first-match order as below)
+        try: cache = m.ck
+        except AttributeError: cache = m.ck = {}
+        for ent in m.e:
+            hit = cache.get(id(ent))
+            if hit is None or hit[0] is not ent or hit[2] is not ent[0]:
+                hit = (ent, ckey(ent[0]), ent[0]); cache[id(ent)] = hit
+            ec = hit[1]
+            if ec is None:
+                if e.branch(e.eq_vals(ent[0], k)): return ent
+            elif ec == kc: return ent
+        return None
     for ent in m.e:
         if e.branch(e.eq_vals(ent[0], k)): return ent
     return None
@@ -320,14 +359,22 @@ def _set_new(e, c, a): return SetObj()
 @model('HashSet::contains')
 def _set_contains(e, c, a):
     s = unguard(a[0]); k = deref(a[1])
+    kc = ckey(k)
     for x in s.e:
-        if e.branch(e.eq_vals(x, k)): return True
+        xc = ckey(x) if kc is not None else None
+        if xc is not None:
+            if xc == kc: return True
+        elif e.branch(e.eq_vals(x, k)): return True
     return False
 @model('HashSet::insert')
 def _set_insert(e, c, a):
     s = unguard(a[0])
+    kc = ckey(a[1])
     for x in s.e:
-        if e.branch(e.eq_vals(x, a[1])): return False
+        xc = ckey(x) if kc is not None else None
+        if xc is not None:
+            if xc == kc: return False
+        elif e.branch(e.eq_vals(x, a[1])): return False
     s.e.append(a[1]); return True
 @model('HashSet::len')
 def _set_len(e, c, a): return len(unguard(a[0]).e)
